@@ -1,23 +1,23 @@
 import CollectionsC.Proofs.DListBulk
 import CollectionsC.Model.SList
-/-! Characterisation of every `cc_slist.c` model function on canonical states `ofList xs`, in the
-style of `Proofs/DList.lean`: status/out-value of the ideal list, final state `ofList (spec content)`,
+/-! Characterisation of every `cc_slist.c` model function on canonical states `ofList t xs`, in the
+style of `Proofs/DList.lean`: status/out-value of the ideal list, final state `ofList t (spec content)`,
 ledger = original ledger plus the stated `alloc`/`free` events (no `check` fails). -/
 namespace CC.SList
 open CC Chain
 open CC.Spec
 
 theorem new_eq (m : Mem) :
-    new m = if m.alloc.1 then (.ok, some (ofList []), m.alloc.2) else (.errAlloc, none, m.alloc.2) := by
-  unfold new; cases h : m.alloc.1 <;> simp [h, ofList_nil]
+    new t m = if (m.allocT t).1 then (.ok, some (ofList t []), (m.allocT t).2) else (.errAlloc, none, (m.allocT t).2) := by
+  unfold new; by_cases h : (m.allocT t).1 = true <;> simp [h, ofList_nil]
 
 theorem getNodeAt_ofList (xs : List Nat) (i : Nat) :
-    getNodeAt (ofList xs) i =
+    getNodeAt (ofList t xs) i =
       if i < xs.length then (.ok, some i, if i = 0 then none else some (i - 1)) else (.errOutOfRange, none, none) := by
   unfold getNodeAt
   by_cases h : i < xs.length
   · have h0 : xs.length ≠ 0 := by omega
-    have hh : (ofList xs).head = some 0 := by simp [ofList, h0]
+    have hh : (ofList t xs).head = some 0 := by simp [ofList, h0]
     simp only [ofList_size, ofList_nodes, h, if_true, ge_iff_le, Nat.not_le.2 h, if_false, hh]
     rw [walkNext_some _ _ _ (by omega)]
     by_cases hi : i = 0
@@ -27,8 +27,8 @@ theorem getNodeAt_ofList (xs : List Nat) (i : Nat) :
 
 /-- unlinking the `i`-th node, `prev` being its predecessor -/
 theorem unlinkn_ofList (xs : List Nat) (i : Nat) (m : Mem) (h : i < xs.length) :
-    unlinkn (ofList xs) (some i) (if i = 0 then none else some (i - 1)) m =
-      (xs.getD i 0, ofList (xs.eraseIdx i), m.free) := by
+    unlinkn (ofList t xs) (some i) (if i = 0 then none else some (i - 1)) m =
+      (xs.getD i 0, ofList t (xs.eraseIdx i), (m.freeT t)) := by
   have h0 : xs.length ≠ 0 := by omega
   have h5 : i - 1 < xs.length := by omega
   unfold unlinkn
@@ -47,67 +47,71 @@ theorem unlinkn_ofList (xs : List Nat) (i : Nat) (m : Mem) (h : i < xs.length) :
       ptr_arith
 
 theorem addFirst_ofList (xs : List Nat) (x : Nat) (m : Mem) :
-    addFirst (ofList xs) x m =
-      if m.alloc.1 then (.ok, ofList (LSeq.addFirst xs x), m.alloc.2) else (.errAlloc, ofList xs, m.alloc.2) := by
+    addFirst (ofList t xs) x m =
+      if (m.allocT t).1 then (.ok, ofList t (LSeq.addFirst xs x), (m.allocT t).2) else (.errAlloc, ofList t xs, (m.allocT t).2) := by
   unfold addFirst LSeq.addFirst
-  cases h : m.alloc.1 <;> simp [h]
+  simp only [ofList_triple]
+  by_cases h : (m.allocT t).1 = true <;> simp [h]
   cases xs with
   | nil => simp [ofList]
   | cons y ys => simp [ofList, Chain.ins, Ptr.pos, Ptr.shiftIns]
 
 theorem addLast_ofList (xs : List Nat) (x : Nat) (m : Mem) :
-    addLast (ofList xs) x m =
-      if m.alloc.1 then (.ok, ofList (LSeq.addLast xs x), m.alloc.2) else (.errAlloc, ofList xs, m.alloc.2) := by
+    addLast (ofList t xs) x m =
+      if (m.allocT t).1 then (.ok, ofList t (LSeq.addLast xs x), (m.allocT t).2) else (.errAlloc, ofList t xs, (m.allocT t).2) := by
   unfold addLast LSeq.addLast
-  cases h : m.alloc.1 <;> simp [h]
+  simp only [ofList_triple]
+  by_cases h : (m.allocT t).1 = true <;> simp [h]
   cases xs with
   | nil => simp [ofList]
   | cons y ys => simp [ofList, Chain.ins, Ptr.valid, Ptr.pos, Ptr.shiftIns]
 
 theorem addAt_ofList (xs : List Nat) (x i : Nat) (m : Mem) :
-    addAt (ofList xs) x i m =
+    addAt (ofList t xs) x i m =
       if (LSeq.addAt xs x i).1 = .ok then
-        (if m.alloc.1 then (.ok, ofList (LSeq.addAt xs x i).2, m.alloc.2) else (.errAlloc, ofList xs, m.alloc.2))
-      else ((LSeq.addAt xs x i).1, ofList xs, m) := by
+        (if (m.allocT t).1 then (.ok, ofList t (LSeq.addAt xs x i).2, (m.allocT t).2) else (.errAlloc, ofList t xs, (m.allocT t).2))
+      else ((LSeq.addAt xs x i).1, ofList t xs, m) := by
   unfold addAt LSeq.addAt
   rw [getNodeAt_ofList]
   by_cases h : i < xs.length
   · simp only [h, if_true]
-    cases ha : m.alloc.1
-    · simp
-    · have h0 : xs.length ≠ 0 := by omega
+    simp only [ofList_triple]
+    by_cases ha : (m.allocT t).1 = true
+    case neg => simp [ha]
+    case pos =>
+      have h0 : xs.length ≠ 0 := by omega
       have h4 : i ≤ xs.length - 1 := by omega
       by_cases hi : i = 0
       · subst hi
-        simp [Ptr.pos, ofList, Chain.ins, Ptr.shiftIns, h0]
+        simp [ha, Ptr.pos, ofList, Chain.ins, Ptr.shiftIns, h0]
         omega
       · have h5 : i - 1 < xs.length := by omega
         have h6 : i - 1 + 1 = i := by omega
-        simp [hi, Ptr.valid, h5, Ptr.pos, ofList, Chain.ins, Ptr.shiftIns, h0, List.length_insertIdx, Nat.le_of_lt h, h6, h4]
+        simp [ha, hi, Ptr.valid, h5, Ptr.pos, ofList, Chain.ins, Ptr.shiftIns, h0, List.length_insertIdx, Nat.le_of_lt h, h6, h4]
         omega
   · simp [h]
 
 theorem getNode_ofList_mem (xs : List Nat) (x : Nat) (h : x ∈ xs) :
-    ∃ i, getNode (ofList xs) x = (.ok, some i, if i = 0 then none else some (i - 1)) ∧ i < xs.length ∧
+    ∃ i, getNode (ofList t xs) x = (.ok, some i, if i = 0 then none else some (i - 1)) ∧ i < xs.length ∧
       xs.getD i 0 = x ∧ xs.eraseIdx i = xs.erase x := by
   obtain ⟨i, h1, h2, h3, h4⟩ := DList.findIdx?_eq_of_mem xs x h
   refine ⟨i, ?_, h2, h3, h4⟩
   have h0 : xs.length ≠ 0 := by omega
   unfold getNode
   rw [DList.find_head_ofList, h1]
-  have hh : (ofList xs).head = some 0 := by simp [ofList, h0]
+  have hh : (ofList t xs).head = some 0 := by simp [ofList, h0]
   simp only [reduceCtorEq, if_false, hh, Option.some.injEq, Ptr.prev]
   by_cases hi : i = 0 <;> simp [hi]
 
 theorem getNode_ofList_not_mem (xs : List Nat) (x : Nat) (h : x ∉ xs) :
-    getNode (ofList xs) x = (.errValueNotFound, none, none) := by
+    getNode (ofList t xs) x = (.errValueNotFound, none, none) := by
   unfold getNode
   rw [DList.find_head_ofList, DList.findIdx?_none_of_not_mem xs x h]; simp
 
 theorem remove_ofList (xs : List Nat) (x : Nat) (m : Mem) :
-    remove (ofList xs) x m =
-      ((LSeq.remove xs x).1, (LSeq.remove xs x).2.1, ofList (LSeq.remove xs x).2.2,
-       if (LSeq.remove xs x).1 = .ok then m.free else m) := by
+    remove (ofList t xs) x m =
+      ((LSeq.remove xs x).1, (LSeq.remove xs x).2.1, ofList t (LSeq.remove xs x).2.2,
+       if (LSeq.remove xs x).1 = .ok then (m.freeT t) else m) := by
   unfold remove LSeq.remove
   by_cases h : x ∈ xs
   · obtain ⟨i, h1, h2, h3, h4⟩ := getNode_ofList_mem xs x h
@@ -117,9 +121,9 @@ theorem remove_ofList (xs : List Nat) (x : Nat) (m : Mem) :
   · rw [getNode_ofList_not_mem xs x h]; simp [h]
 
 theorem removeAt_ofList (xs : List Nat) (i : Nat) (m : Mem) :
-    removeAt (ofList xs) i m =
-      ((LSeq.removeAt xs i).1, (LSeq.removeAt xs i).2.1, ofList (LSeq.removeAt xs i).2.2,
-       if (LSeq.removeAt xs i).1 = .ok then m.free else m) := by
+    removeAt (ofList t xs) i m =
+      ((LSeq.removeAt xs i).1, (LSeq.removeAt xs i).2.1, ofList t (LSeq.removeAt xs i).2.2,
+       if (LSeq.removeAt xs i).1 = .ok then (m.freeT t) else m) := by
   unfold removeAt LSeq.removeAt
   rw [getNodeAt_ofList]
   by_cases h : i < xs.length
@@ -128,22 +132,22 @@ theorem removeAt_ofList (xs : List Nat) (i : Nat) (m : Mem) :
   · simp [h]
 
 theorem removeFirst_ofList (xs : List Nat) (m : Mem) :
-    removeFirst (ofList xs) m =
-      ((LSeq.removeFirst xs).1, (LSeq.removeFirst xs).2.1, ofList (LSeq.removeFirst xs).2.2,
-       if (LSeq.removeFirst xs).1 = .ok then m.free else m) := by
+    removeFirst (ofList t xs) m =
+      ((LSeq.removeFirst xs).1, (LSeq.removeFirst xs).2.1, ofList t (LSeq.removeFirst xs).2.2,
+       if (LSeq.removeFirst xs).1 = .ok then (m.freeT t) else m) := by
   unfold removeFirst
   cases xs with
   | nil => simp [LSeq.removeFirst]
   | cons y ys =>
     simp only [ofList_size, List.length_cons, Nat.add_one_ne_zero, if_false, ofList_head_cons]
-    have := unlinkn_ofList (y :: ys) 0 m (by simp)
+    have := unlinkn_ofList (t := t) (y :: ys) 0 m (by simp)
     simp only [if_true] at this
     rw [this]; simp [LSeq.removeFirst]
 
 theorem removeLast_ofList (xs : List Nat) (m : Mem) :
-    removeLast (ofList xs) m =
-      ((LSeq.removeLast xs).1, (LSeq.removeLast xs).2.1, ofList (LSeq.removeLast xs).2.2,
-       if (LSeq.removeLast xs).1 = .ok then m.free else m) := by
+    removeLast (ofList t xs) m =
+      ((LSeq.removeLast xs).1, (LSeq.removeLast xs).2.1, ofList t (LSeq.removeLast xs).2.2,
+       if (LSeq.removeLast xs).1 = .ok then (m.freeT t) else m) := by
   unfold removeLast
   cases xs with
   | nil => simp [LSeq.removeLast]
@@ -158,9 +162,9 @@ theorem removeLast_ofList (xs : List Nat) (m : Mem) :
     simp
 
 theorem unlinkAllLoop_ofList (hd tl : Ptr) : ∀ (xs : List Nat) (k : Nat) (cb : List Nat) (m : Mem), xs.length ≤ k →
-    ∃ l', unlinkAllLoop k { nodes := xs, size := xs.length, head := hd, tail := tl }
-            (if xs.length = 0 then none else some 0) cb m = (l', cb ++ xs, Mem.freeN xs.length m) ∧
-          l'.nodes = [] ∧ l'.size = 0
+    ∃ l', unlinkAllLoop k { triple := t, nodes := xs, size := xs.length, head := hd, tail := tl }
+            (if xs.length = 0 then none else some 0) cb m = (l', cb ++ xs, Mem.freeN t xs.length m) ∧
+          l'.nodes = [] ∧ l'.size = 0 ∧ l'.triple = t
   | [], k, cb, m, _ => by cases k <;> simp [unlinkAllLoop, Mem.freeN]
   | y :: ys, 0, cb, m, h => by simp at h
   | y :: ys, k + 1, cb, m, h => by
@@ -170,42 +174,42 @@ theorem unlinkAllLoop_ofList (hd tl : Ptr) : ∀ (xs : List Nat) (k : Nat) (cb :
     have hn : (Ptr.next (ys.length + 1) (some 0)).shiftDel 0 = if ys.length = 0 then none else some 0 := by
       cases ys <;> simp [Ptr.next, Ptr.shiftDel]
     rw [hn]
-    obtain ⟨l', e, h1, h2⟩ := unlinkAllLoop_ofList (hd.shiftDel 0) (tl.shiftDel 0) ys k (cb ++ [y]) m.free (by simpa using h)
-    refine ⟨l', ?_, h1, h2⟩
+    obtain ⟨l', e, h1, h2, h3⟩ := unlinkAllLoop_ofList (t := t) (hd.shiftDel 0) (tl.shiftDel 0) ys k (cb ++ [y]) (m.freeT t) (by simpa using h)
+    refine ⟨l', ?_, h1, h2, h3⟩
     have hd0 : (y :: ys).getD 0 0 = y := rfl
     rw [hd0, e]; simp [Mem.freeN]
 
 theorem removeAll_ofList (xs : List Nat) (m : Mem) :
-    removeAll (ofList xs) m =
-      ((LSeq.removeAll xs).1, (LSeq.removeAll xs).2.1, ofList (LSeq.removeAll xs).2.2, Mem.freeN xs.length m) := by
+    removeAll (ofList t xs) m =
+      ((LSeq.removeAll xs).1, (LSeq.removeAll xs).2.1, ofList t (LSeq.removeAll xs).2.2, Mem.freeN t xs.length m) := by
   unfold removeAll unlinknAll LSeq.removeAll
   cases xs with
   | nil => simp [Mem.freeN]
   | cons y ys =>
     simp only [ofList_size, List.length_cons, Nat.add_one_ne_zero, if_false, ofList_nodes]
-    obtain ⟨l', e, h1, h2⟩ := unlinkAllLoop_ofList (ofList (y :: ys)).head (ofList (y :: ys)).tail (y :: ys)
+    obtain ⟨l', e, h1, h2, h3⟩ := unlinkAllLoop_ofList (t := t) (ofList t (y :: ys)).head (ofList t (y :: ys)).tail (y :: ys)
       (ys.length + 1) [] m (by simp)
-    have e' : unlinkAllLoop (ys.length + 1) (ofList (y :: ys)) (ofList (y :: ys)).head [] m =
-        (l', [] ++ (y :: ys), Mem.freeN (y :: ys).length m) := by
+    have e' : unlinkAllLoop (ys.length + 1) (ofList t (y :: ys)) (ofList t (y :: ys)).head [] m =
+        (l', [] ++ (y :: ys), Mem.freeN t (y :: ys).length m) := by
       rw [← e]; simp [ofList]
     rw [e']
     cases l'
     simp_all [ofList]
 
 theorem destroy_ofList (xs : List Nat) (m : Mem) :
-    destroy (ofList xs) m = Mem.freeN (xs.length + 1) m := by
+    destroy (ofList t xs) m = Mem.freeN t (xs.length + 1) m := by
   unfold destroy
-  rw [removeAll_ofList, Mem.freeN_succ]
+  rw [removeAll_ofList, Mem.freeN_succ]; rfl
 
 theorem destroyCb_ofList (xs : List Nat) (m : Mem) :
-    destroyCb (ofList xs) m = (xs, Mem.freeN (xs.length + 1) m) := by
+    destroyCb (ofList t xs) m = (xs, Mem.freeN t (xs.length + 1) m) := by
   unfold destroyCb
   rw [removeAll_ofList, Mem.freeN_succ]
-  cases xs <;> simp [LSeq.removeAll]
+  cases xs <;> simp [LSeq.removeAll] <;> rfl
 
 theorem replaceAt_ofList (xs : List Nat) (x i : Nat) (m : Mem) :
-    replaceAt (ofList xs) x i m =
-      ((LSeq.replaceAt xs x i).1, (LSeq.replaceAt xs x i).2.1, ofList (LSeq.replaceAt xs x i).2.2, m) := by
+    replaceAt (ofList t xs) x i m =
+      ((LSeq.replaceAt xs x i).1, (LSeq.replaceAt xs x i).2.1, ofList t (LSeq.replaceAt xs x i).2.2, m) := by
   unfold replaceAt LSeq.replaceAt
   rw [getNodeAt_ofList]
   by_cases h : i < xs.length
@@ -214,12 +218,12 @@ theorem replaceAt_ofList (xs : List Nat) (x i : Nat) (m : Mem) :
   · simp [h]
 
 theorem getFirst_ofList (xs : List Nat) (m : Mem) :
-    getFirst (ofList xs) m = ((LSeq.getFirst xs).1, (LSeq.getFirst xs).2, m) := by
+    getFirst (ofList t xs) m = ((LSeq.getFirst xs).1, (LSeq.getFirst xs).2, m) := by
   unfold getFirst
   cases xs <;> simp [LSeq.getFirst, ofList, Ptr.valid, data_some]
 
 theorem getLast_ofList (xs : List Nat) (m : Mem) :
-    getLast (ofList xs) m = ((LSeq.getLast xs).1, (LSeq.getLast xs).2, m) := by
+    getLast (ofList t xs) m = ((LSeq.getLast xs).1, (LSeq.getLast xs).2, m) := by
   unfold getLast
   cases xs with
   | nil => simp [LSeq.getLast]
@@ -230,27 +234,27 @@ theorem getLast_ofList (xs : List Nat) (m : Mem) :
     rw [← h1]; simp
 
 theorem getAt_ofList (xs : List Nat) (i : Nat) (m : Mem) :
-    getAt (ofList xs) i m = ((LSeq.getAt xs i).1, (LSeq.getAt xs i).2, m) := by
+    getAt (ofList t xs) i m = ((LSeq.getAt xs i).1, (LSeq.getAt xs i).2, m) := by
   unfold getAt LSeq.getAt
   rw [getNodeAt_ofList]
   by_cases h : i < xs.length <;> simp [h, Ptr.valid, data_some]
 
-theorem contains_ofList (xs : List Nat) (x : Nat) : contains (ofList xs) x = LSeq.contains xs x := by
+theorem contains_ofList (xs : List Nat) (x : Nat) : contains (ofList t xs) x = LSeq.contains xs x := by
   simp [contains, LSeq.contains]
 theorem containsValue_ofList (cmp : Nat → Nat → Int) (xs : List Nat) (x : Nat) :
-    containsValue cmp (ofList xs) x = LSeq.containsValue cmp xs x := by
+    containsValue cmp (ofList t xs) x = LSeq.containsValue cmp xs x := by
   simp [containsValue, LSeq.containsValue]
 theorem indexOf_ofList (xs : List Nat) (x : Nat) :
-    indexOf (ofList xs) x = LSeq.indexOf LSeq.cmpNum xs x := by
+    indexOf (ofList t xs) x = LSeq.indexOf LSeq.cmpNum xs x := by
   simp only [indexOf, LSeq.indexOf, forward_ofList]
   have : (fun y => LSeq.cmpNum y x == 0) = (fun y => y == x) := by
     funext y; unfold LSeq.cmpNum
     by_cases h1 : y < x <;> by_cases h2 : x < y <;> simp [h1, h2] <;> omega
   rw [this]
   cases xs.findIdx? fun y => y == x <;> rfl
-theorem foreach_ofList (xs : List Nat) : foreach (ofList xs) = xs := by simp [foreach]
+theorem foreach_ofList (xs : List Nat) : foreach (ofList t xs) = xs := by simp [foreach]
 
-theorem reverse_ofList (xs : List Nat) : reverse (ofList xs) = ofList xs.reverse := by
+theorem reverse_ofList (xs : List Nat) : reverse (ofList t xs) = ofList t xs.reverse := by
   unfold reverse
   by_cases h : xs.length < 2
   · have : xs.reverse = xs := by
